@@ -7,6 +7,7 @@ package c09drv
 import (
 	"errors"
 	"fmt"
+	"sort"
 	"strings"
 	"testing"
 	"time"
@@ -215,6 +216,8 @@ func run(t *testing.T, c tcase) obs {
 		}
 		for _, set := range [][]incentivestypes.Gauge{app.IncentivesKeeper.GetUpcomingGauges(ctx), app.IncentivesKeeper.GetActiveGauges(ctx), app.IncentivesKeeper.GetFinishedGauges(ctx)} {
 			r := rel(set)
+			// canonical form: the status sets are compared as sets (sorted ids), not in store iteration order
+			sort.Slice(r, func(i, j int) bool { return r[i] < r[j] })
 			put(len(r))
 			for _, id := range r {
 				put(id)
@@ -228,6 +231,7 @@ func run(t *testing.T, c tcase) obs {
 		ctx := ctxNow()
 		for _, d := range lockDenoms[:3] {
 			locks := app.LockupKeeper.GetLocksLongerThanDurationDenom(ctx, d, 0)
+			sort.Slice(locks, func(i, j int) bool { return locks[i].ID < locks[j].ID }) // canonical form: by lock id
 			put(len(locks))
 			for _, l := range locks {
 				put(l.ID - lid0)
